@@ -16,7 +16,10 @@ from .program import children, strip, walk, locstr, literal_value
 
 PRIMS = ('uint8', 'int32_le', 'int32_be', 'int64_le', 'int64_be', 'double_le', 'double_be')
 WIDTH = {'uint8': 1, 'int32_le': 4, 'int32_be': 4, 'int64_le': 8, 'int64_be': 8,
-         'double_le': 8, 'double_be': 8}
+         'double_le': 8, 'double_be': 8,
+         # not a primitive of the format: one byte read in place as a signed number (-128..127), which is what a
+         # decoder takes when it widens a (signed) char; it matches no layout item and no encoder item
+         'int8': 1}
 ENG = 'djinterop::engine::'
 
 # std algorithms that write a run of bytes through an output cursor and return the advanced cursor
@@ -38,6 +41,69 @@ def carries_cursor(t):
     return is_cursor_type(t) or bool(re.search(r'byte \*\s*(const)?\s*[>,]', t))
 
 
+# std functions that only put their arguments together (a value next to a cursor)
+STD_PACK = ('make_pair', 'make_tuple', 'tie', 'forward_as_tuple')
+# C library functions that copy a run of bytes: (destination, source, count)
+C_COPY = ('memcpy', 'memmove')
+# std containers that can be built from / assigned a range of bytes of a blob
+RANGE_TYPES = re.compile(r'basic_string|\bstring\b|string_view|\bvector<')
+# element types through which one byte of a blob is read as 0..255 / as a possibly negative number
+U8_TYPES = ('std::byte', 'unsigned char', 'uint8_t', 'std::uint8_t', '__uint8_t', 'uint_least8_t')
+S8_TYPES = ('char', 'signed char', 'int8_t', 'std::int8_t', '__int8_t')
+_PTR_CASTS = ('CXXReinterpretCastExpr', 'CXXConstCastExpr')
+
+
+def _bare(t):
+    """Type name without cv-qualifiers."""
+    return re.sub(r'\b(const|volatile)\b', '', t or '').strip()
+
+
+def _through_casts(n):
+    """n without the wrappers and casts (reinterpret_cast and const_cast included) around it."""
+    while True:
+        m = strip(n, explicit=True)
+        if m.get('kind') in _PTR_CASTS and len(children(m)) == 1:
+            n = children(m)[0]
+            continue
+        return m
+
+
+def lin_add(a, b, k=1):
+    """Linear forms {symbol: coefficient} ('' = constant term): a + k * b."""
+    r = dict(a)
+    for s_, c in b.items():
+        r[s_] = r.get(s_, 0) + k * c
+        if r[s_] == 0:
+            del r[s_]
+    return r
+
+
+def lin_name(l):
+    """The length source a linear form stands for: a constant, or one symbol; None for anything else."""
+    if not l:
+        return 'const:0'
+    if set(l) == {''}:
+        return 'const:%d' % l['']
+    if len(l) == 1 and list(l.values()) == [1]:
+        return next(iter(l))
+    return None
+
+
+def lin_show(l):
+    return ' + '.join(('%d' % c if s_ == '' else (s_ if c == 1 else '%d*%s' % (c, s_)))
+                      for s_, c in sorted(l.items())) or '0'
+
+
+class RawFrame:
+    """Accesses made directly through the cursor of one function (not through a primitive) that no advance
+    of the cursor has covered yet."""
+
+    def __init__(self):
+        self.alias = {}      # decl id of a pointer local -> (id of the cursor it was taken from, offset, epoch)
+        self.reads = []      # (cursor id, offset, width, item, location)
+        self.epoch = 0       # number of times the cursor has moved
+
+
 def _leaves_block(s):
     """The statement ends by leaving the enclosing block (continue / break / return)."""
     while s.get('kind') == 'CompoundStmt' and children(s):
@@ -55,6 +121,7 @@ class Grammar:
         self.unknown = []
         self.alloc = None         # encoder: allocation size expression node
         self.locs = {}
+        self.pending = []         # encoder: byte runs copied to the cursor that no advance has covered yet
 
     def flat(self):
         return flatten(self.items)
@@ -138,6 +205,8 @@ class Extractor:
                 return self.resolve(obj, env, tu)
             if nm == 'count' and obj is not None:
                 return self.resolve(obj, env, tu)
+            if nm == 'empty' and obj is not None:
+                return 'call(empty %s)' % self.resolve(obj, env, tu)
             return 'call(%s)' % nm
         if k in ('CXXConstructExpr', 'CXXTemporaryObjectExpr', 'InitListExpr'):
             c = [x for x in children(n) if x.get('kind') != 'CXXDefaultArgExpr']
@@ -190,9 +259,17 @@ class Extractor:
                         g.alloc = args[0]
                         g.alloc_var = n
                 break
+        self._enc_settled(g, 'the end of %s' % f.name)
         self._framing(f, g, 'zlib_compress')
         g.items = normalise(g.items)
         return g
+
+    def _enc_settled(self, g, where):
+        """Every run of bytes copied to the cursor has been followed by an advance of that length."""
+        for ln, loc in g.pending:
+            g.unknown.append('%s byte(s) are copied to the cursor at %s and the cursor is not advanced over them before %s'
+                             % (ln, loc, where))
+        del g.pending[:]
 
     def _framing(self, f, g, zname):
         fr = None
@@ -341,18 +418,89 @@ class Extractor:
         # expression statements: ptr = encode_X(v, ptr) / return encode_X(v, ptr)
         for n in self._encode_calls(s, tu):
             self._enc_call(n, env, f, g, out, depth)
+        # ... / ptr += n / ptr = ptr + n / return ptr + n: the cursor moves over bytes written in place
+        adv = self._enc_advance(s, env, tu)
+        if adv is not None:
+            if g.pending and g.pending[0][0] == adv:
+                g.pending.pop(0)
+            else:
+                g.unknown.append('the output cursor is advanced by %s at %s over bytes no recognised write has filled%s'
+                                 % (adv, locstr(s), (' (a copy of %s byte(s) is outstanding)' % g.pending[0][0])
+                                    if g.pending else ''))
+                del g.pending[:]
+
+    def _enc_advance(self, s, env, tu):
+        """Length by which statement s moves an output cursor without writing: `c += n`, `++c`, `c = c + n`,
+        `return c + n` (c a std::byte* variable) -> n resolved; None if s is not of that form."""
+        x = strip(s)
+        if x.get('kind') == 'ReturnStmt':
+            if not children(x):
+                return None
+            x = strip(children(x)[0], explicit=True)
+
+        def out_cursor(e):
+            e = strip(e, explicit=True)
+            return e.get('kind') == 'DeclRefExpr' and is_cursor_type(e.get('type')) and \
+                'const std::byte' not in (e.get('type') or '')
+        k = x.get('kind')
+        if k == 'BinaryOperator' and x.get('opcode') == '=' and out_cursor(children(x)[0]):
+            x = strip(children(x)[1], explicit=True)
+            k = x.get('kind')
+        if k == 'BinaryOperator' and x.get('opcode') == '+' and out_cursor(children(x)[0]):
+            return self.resolve(children(x)[1], env, tu)
+        if k == 'CompoundAssignOperator' and x.get('opcode') == '+=' and out_cursor(children(x)[0]):
+            return self.resolve(children(x)[1], env, tu)
+        if k == 'UnaryOperator' and x.get('opcode') == '++' and out_cursor(children(x)[0]):
+            return 'const:1'
+        return None
 
     def _has_encode(self, n, tu):
         return any(True for _ in self._encode_calls(n, tu))
 
+    def _c_copy_args(self, n, tu):
+        """(destination, source, count) of a call to the C library's memcpy / memmove; None for any other node."""
+        if n.get('kind') != 'CallExpr':
+            return None
+        d, nm = self.callee(n, tu)
+        if nm not in C_COPY or len(children(n)) != 4:
+            return None
+        qn = (tu.qn.get(d['id'], '') if d is not None else '') or nm
+        if not (qn.startswith('std::') or '::' not in qn):
+            return None
+        return children(n)[1:]
+
+    def _data_of(self, n, env, tu):
+        """X for the pointer expressions X.data() / X.c_str() / &X[0]; None otherwise."""
+        e = _through_casts(n)
+        if e.get('kind') == 'CXXMemberCallExpr':
+            callee = strip(children(e)[0])
+            if callee.get('name') in ('data', 'c_str') and children(callee) and len(children(e)) == 1:
+                return self.resolve(children(callee)[0], env, tu)
+        if e.get('kind') == 'UnaryOperator' and e.get('opcode') == '&':
+            a = strip(children(e)[0], explicit=True)
+            sub = None
+            if a.get('kind') == 'ArraySubscriptExpr':
+                sub = children(a)
+            elif a.get('kind') == 'CXXOperatorCallExpr' and len(children(a)) == 3 and \
+                    (strip(children(a)[0]).get('referencedDecl') or {}).get('name') == 'operator[]':
+                sub = children(a)[1:]
+            if sub and literal_value(sub[1]) == 0:
+                return self.resolve(sub[0], env, tu)
+        return None
+
     def _emit_kind(self, n, tu):
         """What a call does with an output cursor it is given: 'prim' (one of the fixed-width primitives
-        L1 checks, or encode_extra), 'fill' / 'copy' (std algorithm writing through the cursor), 'helper'
-        (repository function that takes the cursor and returns the advanced one), 'opaque' (takes and
-        returns a cursor but its body is not available); None = not an emitting call."""
+        L1 checks, or encode_extra), 'fill' / 'copy' (std algorithm writing through the cursor), 'rawcopy'
+        (memcpy to the cursor, which does not move it), 'helper' (repository function that takes the cursor
+        and returns the advanced one), 'opaque' (takes and returns a cursor but its body is not available);
+        None = not an emitting call."""
         if n.get('kind') != 'CallExpr':
             return None
         args = children(n)[1:]
+        cp = self._c_copy_args(n, tu)
+        if cp is not None:
+            dt = _through_casts(cp[0]).get('type') or ''
+            return 'rawcopy' if is_cursor_type(dt) and 'const std::byte' not in dt else None
         if not is_cursor_type(n.get('type')) or 'const std::byte' in (n.get('type') or '') or \
                 not any(is_cursor_type(a.get('type')) for a in args):
             return None
@@ -430,6 +578,21 @@ class Extractor:
         args = children(n)[1:]
         kind = self._emit_kind(n, tu)
         vals = [a for a in args if not is_cursor_type(a.get('type'))]
+        self._enc_settled(g, 'the next write at %s' % locstr(n))
+        if kind == 'rawcopy':
+            # std::memcpy(cursor, X.data(), X.size()): the bytes of X, in place; the cursor stays where it is
+            # and has to be moved over them by what follows (cursor += X.size() / return cursor + X.size())
+            dst, src, cnt = args
+            cont = self._data_of(src, env, tu)
+            ln = self.resolve(cnt, env, tu)
+            if strip(dst, explicit=True).get('kind') == 'DeclRefExpr' and cont is not None and ln == 'size(%s)' % cont:
+                out.append(('bytes', ln, cont))
+                g.pending.append((ln, locstr(n)))
+            else:
+                g.unknown.append('%s at %s copies a run to the output cursor that the extractor cannot describe '
+                                 '(destination other than the cursor itself, or source / length that are not the '
+                                 'data and the size of one container)' % (nm, locstr(n)))
+            return
         if kind == 'prim':
             p = nm[len('encode_'):]
             if p in PRIMS:
@@ -469,6 +632,7 @@ class Extractor:
                 continue
             env2[prm['id']] = self.resolve(a, env, tu)
         self._enc_block(children(cf.body), env2, cf, g, out, depth + 1)
+        self._enc_settled(g, 'the end of %s' % cf.name)
 
     # ---- decoders --------------------------------------------------------------
     def decoder(self, f):
@@ -482,15 +646,19 @@ class Extractor:
                 if t and (t == ret or ret.endswith('::' + t) or t.endswith('::' + ret)):
                     env[n['id']] = ''
         self._late_locals(f, env)
+        env['__raw'] = RawFrame()
         self._dec_block(children(f.body), env, f, g, g.items, 0)
+        self._raw_settled(env, g, 'the end of %s' % f.name)
         self._framing(f, g, 'zlib_uncompress')
         g.items = normalise(g.items)
         return g
 
-    def _late_locals(self, f, env):
+    def _late_locals(self, f, env, root=None):
         """A local that is later stored into a member of the result (possibly
-        through a conversion, possibly through further locals) is named after that member."""
+        through a conversion, possibly through further locals) is named after that member.
+        (root: the part of the body to look at - a loop body, once its element object has a name.)"""
         cand = {}
+        body = root if root is not None else f.body
 
         def feed(rhs, name):
             for y in walk(rhs):
@@ -503,7 +671,7 @@ class Extractor:
                     if '*' in t:
                         continue
                     cand.setdefault(vid, set()).add(name)
-        for n in walk(f.body):
+        for n in walk(body):
             lhs = rhs = None
             if n.get('kind') == 'BinaryOperator' and n.get('opcode') == '=':
                 lhs, rhs = children(n)[0], children(n)[1]
@@ -524,7 +692,7 @@ class Extractor:
         # from carry that member's value (`const auto key_num = raw_key == 0 ? nullopt : raw_key;`)
         for _ in range(3):
             grew = False
-            for n in walk(f.body):
+            for n in walk(body):
                 if n.get('kind') == 'VarDecl' and len(cand.get(n.get('id'), ())) == 1:
                     init = [x for x in children(n) if not x['kind'].endswith('Attr')]
                     if init:
@@ -573,6 +741,12 @@ class Extractor:
                     continue
                 t = d.get('type') or ''
                 init = [x for x in children(d) if not x['kind'].endswith('Attr')]
+                if init and not self._consumes(init[-1], tu):
+                    if _bare(t).endswith('*'):
+                        # const char* p = reinterpret_cast<const char*>(cursor + k): another view of the blob
+                        self._raw_alias(d, init[-1], env, f)
+                    else:
+                        self._raw_scan(init[-1], self._decl_name(d, env), env, f, g)
                 # std::vector<T> result(count): container sized by a wire count
                 if init and 'vector' in t:
                     e = strip(init[-1])
@@ -639,6 +813,8 @@ class Extractor:
                                 if y.get('kind') == 'DeclRefExpr' and (y.get('referencedDecl') or {}).get('kind') == 'VarDecl':
                                     env2[y['referencedDecl']['id']] = '%s[]' % cont
                                     g.notes.append(('sized', cont, cnt))
+            # locals of the body (structured bindings) that are then stored into a member of that element
+            self._late_locals(f, env2, root=body)
             sub = []
             self._dec_stmt(body, env2, f, g, sub, depth)
             out.append(('repeat', cnt, sub))
@@ -654,6 +830,7 @@ class Extractor:
         if k == 'IfStmt':
             c = children(s)
             cn = strip(c[0])
+            self._raw_scan(c[0], 'expr(test)', env, f, g)
             if self._scans_rest(c[0], tu):
                 out.append(('bytes', 'rest', 'trailing'))
             if cn.get('kind') == 'BinaryOperator' and cn.get('opcode') == '!=' and len(c) > 1 and \
@@ -697,6 +874,9 @@ class Extractor:
         cf = self.repo_function(d, tu)
         if cf is not None and cf.body is not None:
             return 'helper'
+        qn = (tu.qn.get(d['id'], '') if d is not None else '') or ''
+        if nm in STD_PACK and (qn.startswith('std::') or not qn):
+            return None         # puts a cursor next to a value; reads nothing
         return 'opaque'
 
     def _scans_rest(self, n, tu):
@@ -722,7 +902,59 @@ class Extractor:
                 l = strip(children(x)[0], explicit=True)
                 if (l.get('type') or '').strip().endswith('*'):
                     return True
+            if self._moves_cursor(x):
+                return True
         return self._scans_rest(n, tu)
+
+    @staticmethod
+    def _cursor_sum(e):
+        """e is `c + n` for a cursor variable c (a position further on in the blob)."""
+        e = strip(e, explicit=True)
+        if e.get('kind') != 'BinaryOperator' or e.get('opcode') != '+' or not is_cursor_type(e.get('type')):
+            return False
+        while e.get('kind') == 'BinaryOperator' and e.get('opcode') in ('+', '-') and is_cursor_type(e.get('type')):
+            e = strip(children(e)[0], explicit=True)
+        return e.get('kind') == 'DeclRefExpr' and is_cursor_type(e.get('type'))
+
+    def _return_components(self, r):
+        """The expressions a return statement puts together: the arguments of the pair / tuple / struct it
+        constructs (braces, constructor, make_pair / make_tuple), or the single cursor it returns; None if the
+        returned expression is not of that shape."""
+        if not children(r):
+            return None
+        e = strip(children(r)[0])
+        for _ in range(4):
+            k = e.get('kind')
+            args = None
+            if k in ('CXXConstructExpr', 'CXXTemporaryObjectExpr', 'InitListExpr'):
+                args = [a for a in children(e) if a.get('kind') != 'CXXDefaultArgExpr']
+            elif k == 'CallExpr' and (strip(children(e)[0]).get('referencedDecl') or {}).get('name') in (
+                    'make_pair', 'make_tuple'):
+                args = children(e)[1:]
+            if args is None:
+                break
+            if len(args) == 1 and carries_cursor(strip(args[0]).get('type')) and not is_cursor_type(strip(args[0]).get('type')):
+                e = strip(args[0])      # copy / move of the aggregate
+                continue
+            if len(args) >= 2 and any(is_cursor_type(a.get('type')) for a in args):
+                return args
+            return None
+        if is_cursor_type(e.get('type')):
+            return [e]
+        return None
+
+    def _moves_cursor(self, x):
+        """x moves a cursor by arithmetic, without a call: ++c, c = c + n, return {.., c + n} / return c + n."""
+        k = x.get('kind')
+        if k == 'UnaryOperator' and x.get('opcode') == '++' and children(x) and \
+                is_cursor_type(strip(children(x)[0], explicit=True).get('type')):
+            return True
+        if k == 'BinaryOperator' and x.get('opcode') == '=' and is_cursor_type(strip(children(x)[0], explicit=True).get('type')):
+            return self._cursor_sum(children(x)[1])
+        if k == 'ReturnStmt':
+            comps = self._return_components(x)
+            return bool(comps) and any(self._cursor_sum(c) for c in comps)
+        return False
 
     def _dec_expr(self, s, env, f, g, out, depth):
         tu = f.tu
@@ -739,6 +971,7 @@ class Extractor:
                     if calls:
                         self._dec_call(calls[0], targets, env, f, g, out, depth)
                         return
+        raw = env.get('__raw')
         if k == 'BinaryOperator' and x.get('opcode') == '=':
             # cursor = helper(cursor, ...): the helper consumes and hands back the advanced cursor
             c = children(x)
@@ -747,10 +980,33 @@ class Extractor:
             if is_cursor_type(l.get('type')) and self._consume_kind(r, tu) in ('helper', 'opaque'):
                 self._dec_call(r, [], env, f, g, out, depth)
                 return
+            if is_cursor_type(l.get('type')) and l.get('kind') == 'DeclRefExpr' and self._cursor_sum(r):
+                self._dec_advance(r, l, env, f, g, out)      # cursor = cursor + n
+                return
+            if not self._consumes(c[1], tu):
+                self._raw_scan(c[1], self.resolve(c[0], env, tu), env, f, g)     # x = <byte read through the cursor>
+                return
+        if k == 'UnaryOperator' and x.get('opcode') == '++' and \
+                is_cursor_type(strip(children(x)[0], explicit=True).get('type')) and raw is not None:
+            l = strip(children(x)[0], explicit=True)
+            if l.get('kind') == 'DeclRefExpr':
+                self._raw_moved(l['referencedDecl']['id'], {'': 1}, env, f, g, out, locstr(s))
+                return
         if k == 'CompoundAssignOperator' and x.get('opcode') == '+=':
             c = children(x)
             l = strip(c[0], explicit=True)
             if (l.get('type') or '').strip().endswith('*'):
+                if raw is not None and raw.reads and l.get('kind') == 'DeclRefExpr':
+                    # the bytes read in place before this statement are what the cursor moves over
+                    adv = self._lin(c[1], env, tu)
+                    if adv is None:
+                        g.unknown.append('the cursor is advanced at %s by an amount the extractor cannot express' % locstr(s))
+                        del raw.reads[:]
+                    else:
+                        self._raw_moved(l['referencedDecl']['id'], adv, env, f, g, out, locstr(s))
+                    return
+                if raw is not None:
+                    raw.epoch += 1
                 v = self.resolve(c[1], env, tu)
                 if v.startswith('const:'):
                     out.append(('skip', int(v[6:])))
@@ -762,6 +1018,10 @@ class Extractor:
             callee = strip(children(x)[0])
             if callee.get('name') == 'assign' and children(callee):
                 args = children(x)[1:]
+                if len(args) == 2 and raw is not None and self._raw_assign_in_place(x, env, tu):
+                    # X.assign(p + k, n) / X.assign(first, last) at a position the cursor has yet to be moved to
+                    self._raw_scan(x, 'ignored', env, f, g)
+                    return
                 if len(args) == 2:
                     fld = self.resolve(children(callee)[0], env, tu)
                     ln = self.resolve(args[1], env, tu)
@@ -779,16 +1039,328 @@ class Extractor:
         if k == 'ReturnStmt' or s.get('kind') == 'ReturnStmt':
             if any(self._consume_kind(y, tu) for y in walk(s)):
                 g.unknown.append('consuming call in a return statement at %s' % locstr(s))
+                return
+            # return {value, cursor + n}: what the value is built from in place, and how far the cursor moves
+            comps = self._return_components(s) if s.get('kind') == 'ReturnStmt' else None
+            first = True
+            for c in comps or ():
+                if not is_cursor_type(c.get('type')):
+                    self._raw_scan(c, env.get('__ret', 'ignored') if first else 'ignored', env, f, g)
+                    first = False
+            for c in comps or ():
+                if is_cursor_type(c.get('type')) and self._cursor_sum(c):
+                    self._dec_advance(c, None, env, f, g, out)
+            if comps is None and children(s):
+                self._raw_scan(children(s)[0], env.get('__ret', 'ignored'), env, f, g)
             return
         # any other statement that contains a decode call is outside the subset
         if s.get('kind') not in ('ReturnStmt',) and self._consumes(s, tu) and k not in ('CXXThrowExpr',):
             g.unknown.append('unrecognised consuming statement at %s' % locstr(s))
+            return
+        if k != 'CXXThrowExpr':
+            self._raw_scan(s, 'ignored', env, f, g)
+
+    # ---- bytes taken directly through the cursor -------------------------------------------------
+    def _decl_name(self, d, env):
+        return env[d['id']] if d.get('id') in env else 'local:%s%s' % (d.get('name'), env.get('__tag', ''))
+
+    def _lin(self, n, env, tu):
+        """Integer expression as a linear form over resolved names; None if it is not one."""
+        n = strip(n, explicit=True)
+        k = n.get('kind')
+        if k == 'IntegerLiteral':
+            return {'': int(n['value'])} if int(n['value']) else {}
+        if k == 'BinaryOperator' and n.get('opcode') in ('+', '-'):
+            a, b = (self._lin(c, env, tu) for c in children(n))
+            if a is None or b is None:
+                return None
+            return lin_add(a, b, 1 if n['opcode'] == '+' else -1)
+        if k == 'BinaryOperator' and n.get('opcode') == '*':
+            a, b = (self._lin(c, env, tu) for c in children(n))
+            if a is None or b is None:
+                return None
+            if set(a) <= {''}:
+                return {s_: c * a.get('', 0) for s_, c in b.items() if c * a.get('', 0)}
+            if set(b) <= {''}:
+                return {s_: c * b.get('', 0) for s_, c in a.items() if c * b.get('', 0)}
+            return None
+        if k == 'DeclRefExpr' or (k == 'CXXMemberCallExpr' and strip(children(n)[0]).get('name') in ('size', 'length')):
+            nm = self.resolve(n, env, tu)
+            if nm.startswith('const:'):
+                try:
+                    v = int(nm[6:])
+                except ValueError:
+                    return None
+                return {'': v} if v else {}
+            if nm.startswith(('local:', 'size(')) or is_plain(nm):
+                return {nm: 1}
+        return None
+
+    def _cursor_off(self, n, env, tu):
+        """Pointer expression as (cursor variable id, offset): the cursor itself, a pointer local taken from it
+        (through any cast), either of them plus / minus an integer, &p[i].  None: not a position in the blob;
+        'stale': taken from the cursor before the cursor moved (or from a pointer that is modified)."""
+        raw = env.get('__raw')
+        e = _through_casts(n)
+        k = e.get('kind')
+        if k == 'DeclRefExpr':
+            rid = (e.get('referencedDecl') or {}).get('id')
+            if raw is not None and rid in raw.alias:
+                a = raw.alias[rid]
+                if a == 'stale' or a[2] != raw.epoch:
+                    return 'stale'
+                return (a[0], a[1])
+            if is_cursor_type(e.get('type')) and (e.get('referencedDecl') or {}).get('kind') in ('ParmVarDecl', 'VarDecl', 'BindingDecl'):
+                return (rid, {})
+            return None
+        if k == 'BinaryOperator' and e.get('opcode') in ('+', '-') and _bare(e.get('type')).endswith('*'):
+            c = children(e)
+            base = self._cursor_off(c[0], env, tu)
+            if base is None or base == 'stale':
+                return base
+            off = self._lin(c[1], env, tu)
+            if off is None:
+                return 'stale'
+            return (base[0], lin_add(base[1], off, 1 if e['opcode'] == '+' else -1))
+        if k == 'UnaryOperator' and e.get('opcode') == '&':
+            a = strip(children(e)[0], explicit=True)
+            if a.get('kind') == 'ArraySubscriptExpr':
+                base = self._cursor_off(children(a)[0], env, tu)
+                if base is None or base == 'stale':
+                    return base
+                off = self._lin(children(a)[1], env, tu)
+                return 'stale' if off is None else (base[0], lin_add(base[1], off))
+        return None
+
+    def _raw_alias(self, d, init, env, f):
+        raw = env.get('__raw')
+        if raw is None:
+            return
+        off = self._cursor_off(init, env, f.tu)
+        if off is None:
+            return
+        if off == 'stale' or d['id'] in self._assigned(f):
+            raw.alias[d['id']] = 'stale'
+        else:
+            raw.alias[d['id']] = (off[0], off[1], raw.epoch)
+
+    def _raw_assign_in_place(self, x, env, tu):
+        """X.assign(p, ..) where p is a position other than the cursor itself, or follows reads made in place."""
+        raw = env.get('__raw')
+        off = self._cursor_off(children(x)[1], env, tu)
+        if off is None:
+            return False
+        return off == 'stale' or bool(off[1]) or bool(raw.reads) or \
+            _bare(strip(children(x)[2], explicit=True).get('type')).endswith('*')
+
+    def _range_of(self, a0, a1, env, tu):
+        """(cursor id, offset, length) of the byte range (first, last) / (first, count) in the blob; None if first is
+        not a position in the blob; 'stale' if it is one the extractor cannot place."""
+        o0 = self._cursor_off(a0, env, tu)
+        if o0 is None or o0 == 'stale':
+            return o0
+        if _bare(_through_casts(a1).get('type')).endswith('*') or _bare(strip(a1).get('type')).endswith('*'):
+            o1 = self._cursor_off(a1, env, tu)
+            if o1 is None or o1 == 'stale' or o1[0] != o0[0]:
+                return 'stale'
+            return (o0[0], o0[1], lin_add(o1[1], o0[1], -1))
+        ln = self._lin(a1, env, tu)
+        if ln is None:
+            return 'stale'
+        return (o0[0], o0[1], ln)
+
+    def _raw_scan(self, root, dest, env, f, g):
+        """Record what expression `root` takes directly from the blob through the cursor (or a pointer local taken
+        from it): single bytes (p[i], *p, *(p + i)) and ranges (a string / vector built from or assigned
+        [p + i, p + i + n) or (p + i, n); memcpy from p + i).  `dest` names what receives the value when the
+        access is all of root but conversions.  The items are emitted when the cursor is moved over them."""
+        raw = env.get('__raw')
+        if raw is None:
+            return
+        tu = f.tu
+        par = {}
+        nodes = []
+        stack = [root]
+        while stack:
+            n = stack.pop()
+            nodes.append(n)
+            if n.get('kind') == 'LambdaExpr':
+                continue
+            for c in reversed(children(n)):
+                par[id(c)] = n
+                stack.append(c)
+
+        def whole(n, also=()):
+            """n is root but for conversions (and the kinds in `also`)."""
+            while n is not root:
+                p_ = par.get(id(n))
+                if p_ is None:
+                    return False
+                pk = p_.get('kind')
+                if pk in ('ImplicitCastExpr', 'ParenExpr', 'ExprWithCleanups', 'MaterializeTemporaryExpr',
+                          'CXXBindTemporaryExpr', 'ConstantExpr', 'FullExpr', 'CXXFunctionalCastExpr',
+                          'CXXStaticCastExpr', 'CStyleCastExpr') + tuple(also) and len(children(p_)) == 1:
+                    n = p_
+                elif pk == 'CallExpr' and len(children(p_)) == 2 and n is children(p_)[1] and \
+                        (strip(children(p_)[0]).get('referencedDecl') or {}).get('name') in ('to_integer', 'move'):
+                    n = p_
+                elif pk in ('CXXConstructExpr',) and 'CXXConstructExpr' in also and \
+                        len([a for a in children(p_) if a.get('kind') != 'CXXDefaultArgExpr']) == 1:
+                    n = p_
+                else:
+                    return False
+            return True
+
+        def lost(n, what):
+            g.unknown.append('%s at %s is taken from a position in the blob the extractor cannot place (a pointer '
+                             'saved before the cursor moved, or an offset that is not a sum of constants and '
+                             'locals)' % (what, locstr(n)))
+
+        for n in nodes:
+            k = n.get('kind')
+            # ---- one byte
+            if (k == 'ArraySubscriptExpr' or (k == 'UnaryOperator' and n.get('opcode') == '*')) and children(n):
+                up = par.get(id(n))
+                while up is not None and up.get('kind') == 'ParenExpr':
+                    up = par.get(id(up))
+                if up is not None and up.get('kind') == 'UnaryOperator' and up.get('opcode') == '&':
+                    continue        # &p[i]: a position, not a read
+                off = self._cursor_off(children(n)[0], env, tu)
+                if off is None:
+                    continue
+                if off != 'stale' and k == 'ArraySubscriptExpr':
+                    i = self._lin(children(n)[1], env, tu)
+                    off = 'stale' if i is None else (off[0], lin_add(off[1], i))
+                if off == 'stale':
+                    lost(n, 'the byte read')
+                    continue
+                et = _bare(n.get('type'))
+                if et not in U8_TYPES + S8_TYPES:
+                    g.unknown.append('a %s is read in place through the cursor at %s: not one of the primitives' % (et, locstr(n)))
+                    continue
+                prim = 'uint8'
+                if et in S8_TYPES:
+                    conv = self._first_conversion(n, par)
+                    if conv is None:
+                        g.unknown.append('the byte read through a %s pointer at %s is kept as a %s: what number it stands for '
+                                         'is decided where it is used, which the extractor does not follow' % (et, locstr(n), et))
+                        continue
+                    if conv != 'u8':
+                        prim = 'int8'       # widened as a signed number: 128..255 arrive as -128..-1
+                raw.reads.append((off[0], off[1], {'': 1}, ('prim', prim, dest if whole(n) else 'expr(read)'), locstr(n)))
+                continue
+            # ---- a range
+            rng = tgt = None
+            if k in ('CXXConstructExpr', 'CXXTemporaryObjectExpr') and RANGE_TYPES.search(n.get('type') or ''):
+                args = [a for a in children(n) if a.get('kind') != 'CXXDefaultArgExpr']
+                if len(args) == 2:
+                    rng = self._range_of(args[0], args[1], env, tu)
+                    tgt = dest if whole(n, ('CXXConstructExpr',)) else 'expr(range)'
+            elif k == 'CXXMemberCallExpr' and len(children(n)) == 3 and \
+                    strip(children(n)[0]).get('name') == 'assign' and children(strip(children(n)[0])):
+                rng = self._range_of(children(n)[1], children(n)[2], env, tu)
+                tgt = self.resolve(children(strip(children(n)[0]))[0], env, tu)
+            else:
+                cp = self._c_copy_args(n, tu)
+                if cp is not None:
+                    rng = self._range_of(cp[1], cp[2], env, tu)
+                    tgt = self._data_of(cp[0], env, tu) or 'expr(copy)'
+            if rng is None:
+                continue
+            if rng == 'stale':
+                lost(n, 'the byte range')
+                continue
+            ln = lin_name(rng[2])
+            if ln is None or (ln.startswith('const:') and int(ln[6:]) < 0):
+                g.unknown.append('the byte range taken at %s has length %s, which is not one constant or one count'
+                                 % (locstr(n), lin_show(rng[2])))
+                continue
+            raw.reads.append((rng[0], rng[1], rng[2], ('bytes', ln, tgt), locstr(n)))
+
+    @staticmethod
+    def _first_conversion(n, par):
+        """The first integer conversion applied to the value read at n: 'u8' (to an unsigned 8-bit type: the byte
+        as 0..255), 'other' (to any other type: the value of the signed char), None (none: it stays a char)."""
+        p_ = par.get(id(n))
+        while p_ is not None:
+            k = p_.get('kind')
+            if k == 'ParenExpr' or (k == 'ImplicitCastExpr' and p_.get('castKind') in ('LValueToRValue', 'NoOp')):
+                p_ = par.get(id(p_))
+                continue
+            if k in ('ImplicitCastExpr', 'CXXStaticCastExpr', 'CStyleCastExpr', 'CXXFunctionalCastExpr'):
+                t = _bare(p_.get('type'))
+                if t in S8_TYPES:
+                    p_ = par.get(id(p_))        # char -> signed char and the like: still the signed value
+                    continue
+                return 'u8' if t in U8_TYPES else 'other'
+            return None
+        return None
+
+    def _dec_advance(self, e, target, env, f, g, out):
+        """The cursor is set to (or returned as) `e` = cursor + n."""
+        raw = env.get('__raw')
+        off = self._cursor_off(e, env, f.tu)
+        if raw is None or off is None or off == 'stale' or \
+                (target is not None and (target.get('referencedDecl') or {}).get('id') != off[0]):
+            g.unknown.append('the position %s at %s cannot be expressed as the cursor plus constants and locals'
+                             % ('returned' if target is None else 'assigned', locstr(e)))
+            if raw is not None:
+                del raw.reads[:]
+            return
+        self._raw_moved(off[0], off[1], env, f, g, out, locstr(e))
+
+    def _raw_moved(self, cid, adv, env, f, g, out, loc):
+        """Cursor `cid` moves forward by `adv`: the accesses made in place since its last move must tile
+        [0, adv) exactly; they become grammar items in the order of their offsets."""
+        raw = env['__raw']
+        reads, raw.reads = raw.reads, []
+        raw.epoch += 1
+        if not reads:
+            nm = lin_name(adv)
+            if nm is None:
+                g.unknown.append('the cursor is moved by %s at %s' % (lin_show(adv), loc))
+            elif nm.startswith('const:'):
+                if int(nm[6:]) < 0:
+                    g.unknown.append('the cursor is moved backwards at %s' % loc)
+                elif int(nm[6:]):
+                    out.append(('skip', int(nm[6:])))
+            else:
+                out.append(('bytes', nm, '?'))
+            return
+        pos = {}
+        items = []
+        while reads:
+            here = [r for r in reads if r[0] == cid and r[1] == pos]
+            if len(here) != 1:
+                g.unknown.append('the bytes taken in place before the cursor moves at %s do not follow one another '
+                                 'from the cursor on: %s at offset %s (%s)' % (
+                                     loc, 'nothing' if not here else 'more than one access', lin_show(pos),
+                                     ', '.join('%s+%s at %s' % (lin_show(r[1]), lin_show(r[2]), r[4]) for r in reads)))
+                return
+            reads.remove(here[0])
+            items.append(here[0][3])
+            pos = lin_add(pos, here[0][2])
+        if pos != adv:
+            g.unknown.append('the cursor moves by %s at %s but the bytes taken in place before cover %s'
+                             % (lin_show(adv), loc, lin_show(pos)))
+            return
+        out.extend(items)
+
+    def _raw_settled(self, env, g, where):
+        raw = env.get('__raw')
+        if raw is not None and raw.reads:
+            g.unknown.append('bytes are taken in place through the cursor (%s) and the cursor is not moved over them '
+                             'before %s' % (', '.join(r[4] for r in raw.reads), where))
+            del raw.reads[:]
 
     def _dec_call(self, n, targets, env, f, g, out, depth):
         tu = f.tu
         d, nm = self.callee(n, tu)
         kind = self._consume_kind(n, tu)
         tgt = self.resolve(targets[0], env, tu) if targets else 'ignored'
+        self._raw_settled(env, g, 'the cursor is handed on at %s' % locstr(n))
+        if env.get('__raw') is not None:
+            env['__raw'].epoch += 1
         if kind == 'prim':
             p = nm[len('decode_'):]
             if p in PRIMS:
@@ -801,7 +1373,7 @@ class Extractor:
             g.unknown.append('call to %s at %s cannot be inlined' % (nm, locstr(n)))
             return
         self.inl = getattr(self, 'inl', 0) + 1
-        env2 = {'__tag': '#%d' % self.inl}
+        env2 = {'__tag': '#%d' % self.inl, '__raw': RawFrame(), '__ret': tgt}
         # value and reference parameters stand for the caller's arguments
         for prm, a in zip(cf.params, children(n)[1:]):
             if is_cursor_type(prm.get('type')):
@@ -811,13 +1383,31 @@ class Extractor:
         if targets:
             for r in walk(cf.body):
                 if r.get('kind') == 'ReturnStmt':
-                    for y in walk(r):
+                    comps = self._return_components(r)
+                    if comps is not None:
+                        # the first component next to the cursor, when it is a local (copied or moved)
+                        vals = [c for c in comps if not is_cursor_type(c.get('type'))]
+                        y = strip(vals[0], explicit=True) if vals else {}
+                        for _ in range(4):
+                            a = [c for c in children(y) if c.get('kind') != 'CXXDefaultArgExpr']
+                            if y.get('kind') == 'CXXConstructExpr' and len(a) == 1:
+                                y = strip(a[0], explicit=True)
+                            elif y.get('kind') == 'CallExpr' and len(a) == 2 and \
+                                    (strip(a[0]).get('referencedDecl') or {}).get('name') in ('move', 'forward'):
+                                y = strip(a[1], explicit=True)
+                            else:
+                                break
+                        scan = [y] if y.get('kind') == 'DeclRefExpr' else []
+                    else:
+                        scan = walk(r)
+                    for y in scan:
                         if y.get('kind') == 'DeclRefExpr' and (y.get('referencedDecl') or {}).get('kind') == 'VarDecl':
                             vd = cf.tu.ids.get(y['referencedDecl']['id'])
                             if vd is not None and '*' not in (vd.get('type') or ''):
                                 env2[vd['id']] = tgt
                                 break
         self._dec_block(children(cf.body), env2, cf, g, out, depth + 1)
+        self._raw_settled(env2, g, 'the end of %s' % cf.name)
 
 
 # ---- normalisation ----------------------------------------------------------------
@@ -842,6 +1432,12 @@ def normalise(items):
         if it[0] == 'alt' and not it[3] and len(it[2]) == 1 and it[2][0][0] == 'bytes' and \
                 _mentions(it[1], it[2][0][1]):
             out.append(it[2][0])
+            i += 1
+            continue
+        # `if (!X.empty()) <the size(X) bytes of X>`: an empty X has no bytes, so the run is there on both arms
+        if it[0] == 'alt' and not it[2] and len(it[3]) == 1 and it[3][0][0] == 'bytes' and \
+                it[3][0][1].startswith('size(') and it[1] == 'call(empty %s)' % it[3][0][1][5:-1]:
+            out.append(it[3][0])
             i += 1
             continue
         out.append(it)
